@@ -133,7 +133,20 @@ func NewEnv(opt EnvOpt) (*Env, error) {
 		cl.Close()
 		return nil, err
 	}
-	e := &Env{Dir: dir, Cl: cl, T: t, P: p, Bin: bin}
+	// the listening port is picked by probing; if another process took it in the
+	// meantime the proxy exits at once: try again with another port
+	for attempt := 0; attempt < 3; attempt++ {
+		time.Sleep(150 * time.Millisecond)
+		if p.Alive() {
+			break
+		}
+		p, err = StartProxy(bin, fmt.Sprintf("%s.r%d", dir, attempt), cfg)
+		if err != nil {
+			cl.Close()
+			return nil, err
+		}
+	}
+	e := &Env{Dir: p.Dir, Cl: cl, T: t, P: p, Bin: bin}
 	allEnvsMu.Lock()
 	allEnvs = append(allEnvs, e)
 	allEnvsMu.Unlock()
